@@ -2,12 +2,14 @@
   C20 — sequence state and relation-map files are reported exactly.
   Property theorems only; helper lemmas are in Proofs/Sequence.lean and Proofs/Relmap.lean.
   The sequence model is that of sequence.go with the repairs 05–07 of /verif/fixes/control applied; the
-  `witness_*` theorems show the defects on the model of the code as written.  relmap.go is unchanged.
+  `witness_*` theorems show the defects on the model of the code as written.  relmap.go: with fixes/control/09
+  (both layouts: PostgreSQL 12–15 and 16); FindSequences with fixes/control/08 (filenode order).
 -/
 import PgVerif.Proofs.Sequence
 import PgVerif.Proofs.Relmap
 import PgVerif.Proofs.ControlTotal
 import PgVerif.Model.SequenceOrig
+import PgVerif.Model.RelmapOrig
 import PgVerif.Generated.Control
 import PgVerif.Gen.Control
 namespace PgVerif.Props.C20
@@ -40,68 +42,107 @@ example : isSeqPage (encSeqPage (Gen.plainSeqPage 42 true)) = true := by decide 
 
 /-- Listing.  For every file system and every database `d` found under the requested name (oid ≠ 0): if every
 relkind-'S' relation the pg_class parser reports for `d` has a well-formed sequence page as its file
-base/<d.oid>/<relfilenode>, FindSequences returns exactly those relations — in catalog order (Go: map order; the
-harness compares as sets), nothing else, each as often as the catalog lists it (once, relfilenodes being unique
-keys of the parsed map) — each with its own name, oid, filenode and the last_value / is_called stored in its own
-file. -/
+base/<d.oid>/<relfilenode>, FindSequences returns exactly those relations, nothing else, each once — in ascending
+relfilenode order, WHATEVER order Go's `range` over the parsed map yields them in (`env.order`: any rearrangement;
+fixes/control/08) — each with its own name, oid, filenode and the last_value / is_called stored in its own file.
+`hmap` is what "the parser returns a Go map" means: every relfilenode is the key of one entry.
+Relative to the pg_class / pg_database parsers, which are parameters here (other areas; every `seqfind` case checks the
+lists given to the model against the real ParsePGClass / ParsePGDatabase), and for databases stored under
+base/<oid>/ (a database in another tablespace makes the real FindSequences return an error: not covered). -/
 theorem C20_find (env : Model.SeqEnv) (dir : String) (dbName dbData classData : Bytes) (d : Model.DbInfo)
     (pageOf : Model.ClassInfo → SeqPage)
+    (hπ : (env.order (env.parseClass classData)).Perm (env.parseClass classData))
+    (hmap : KeySort.DistinctKeys (fun c : Model.ClassInfo => c.filenode) (env.parseClass classData))
     (h1 : env.fs (dir ++ "/global/1262") = some dbData)
     (h2 : (env.parseDatabase dbData).find? (·.name == dbName) = some d) (h3 : d.oid ≠ 0)
     (h4 : env.fs (dir ++ "/base/" ++ toString d.oid ++ "/1259") = some classData)
     (h5 : ∀ c ∈ env.parseClass classData, c.kind = [83] → (pageOf c).WF ∧
       env.fs (dir ++ "/base/" ++ toString d.oid ++ "/" ++ toString c.filenode) = some (encSeqPage (pageOf c))) :
     Model.findSequences env dir dbName =
-      .ok (some (((env.parseClass classData).filter fun c => c.kind == [83]).map fun c => listed c (pageOf c))) :=
-  findSequences_enc env dir dbName dbData classData d pageOf h1 h2 h3 h4 h5
+      .ok (some (((Model.keySort (·.filenode) (env.parseClass classData)).filter fun c => c.kind == [83]).map
+        fun c => listed c (pageOf c))) :=
+  findSequences_enc env dir dbName dbData classData d pageOf hπ hmap h1 h2 h3 h4 h5
 
-/-- a concrete cluster satisfying the hypotheses: database 5 "d" with sequence 70 (file 77, last_value 2^32+20,
-called) and table 80 -/
+/-- a concrete cluster satisfying the hypotheses: database 5 "d" with table 80 (file 88) and sequence 70 (file 77,
+last_value 2^32+20, called); the map is iterated back to front -/
 def exEnv : Model.SeqEnv :=
   { fs := fun p =>
       if p = "D/global/1262" then some [1] else if p = "D/base/5/1259" then some [2]
       else if p = "D/base/5/77" then some (encSeqPage (Gen.plainSeqPage (2 ^ 32 + 20) true)) else none
     parseDatabase := fun _ => [⟨5, [100]⟩]
-    parseClass := fun _ => [⟨77, 70, [115], [83]⟩, ⟨88, 80, [116], [114]⟩] }
+    parseClass := fun _ => [⟨88, 80, [116], [114]⟩, ⟨77, 70, [115], [83]⟩]
+    order := List.reverse }
 
 set_option maxRecDepth 100000 in
 example : Model.findSequences exEnv "D" [100] =
     .ok (some [{ name := [115], oid := 70, filenode := 77, lastValue := 2 ^ 32 + 20, isCalled := true }]) := by
   have := C20_find exEnv "D" [100] [1] [2] ⟨5, [100]⟩ (fun _ => Gen.plainSeqPage (2 ^ 32 + 20) true)
+    (List.reverse_perm _) (by unfold KeySort.DistinctKeys; decide)
     (by decide) (by decide) (by decide) (by decide)
     (by intro c hc hk
         refine ⟨by decide, ?_⟩
         have : c = ⟨77, 70, [115], [83]⟩ := by
           simp [exEnv] at hc
           rcases hc with rfl | rfl
-          · rfl
           · simp at hk
+          · rfl
         subst this; decide +kernel)
   exact this
 
-/-- Relation map.  For every well-formed map (0..62 mappings of arbitrary 32-bit oids and filenodes, duplicates
-allowed, any unused slots, any stored crc) followed by any tail (files of 512 bytes and longer), ParseRelMapFile
-reports the magic, the count, the mappings in stored order and the stored crc. -/
-theorem C20_relmap (m : RelMap) (h : m.WF) (tail : Bytes) :
+/-- Relation map, PostgreSQL 12–15 layout (62 slots, crc at 504, 4 bytes of padding: 512 bytes).  For every well-formed
+map (0..62 mappings of arbitrary 32-bit oids and filenodes, duplicates allowed, any unused slots, any stored crc, any
+padding) followed by any tail that does not make the file exactly 524 bytes long (files of 512 bytes and longer —
+a genuine file has no tail), ParseRelMapFile reports the magic, the count, the mappings in stored order and the stored
+crc.  (A 524-byte file is read as the PostgreSQL 16 layout — `C20_relmap_v16`; PostgreSQL itself writes and reads exactly
+sizeof(RelMapFile) bytes, so a 12–15 file with 12 trailing bytes does not occur.) -/
+theorem C20_relmap (m : RelMap) (h : m.WF) (tail : Bytes) (ht : tail.length ≠ 12) :
     Model.parseRelMapFile (encRelMap m ++ tail) =
       .ok (some { magic := relmapMagic, numMappings := m.mappings.length, mappings := m.mappings.map toMapping, crc := m.crc }) :=
-  parseRelMapFile_enc m h tail
+  parseRelMapFile_enc m h tail ht
 
 set_option maxRecDepth 100000 in
 example : (RelMap.mk [(1262, 1262), (1259, 16384), (1262, 7)] (zeros (8 * 59)) 0xDEADBEEF (zeros 4)).WF := by decide +kernel
 
+/-- Relation map, PostgreSQL 16 layout (64 slots, crc at 520, no padding: 524 bytes; fixes/control/09).  For every
+well-formed map (0..64 mappings, any unused slots, any stored crc), ParseRelMapFile on the 524-byte file reports the magic,
+the count, the mappings in stored order and the stored crc. -/
+theorem C20_relmap_v16 (m : RelMap) (h : m.WF16) :
+    Model.parseRelMapFile (encRelMap m) =
+      .ok (some { magic := relmapMagic, numMappings := m.mappings.length, mappings := m.mappings.map toMapping, crc := m.crc }) :=
+  parseRelMapFile_enc16 m h
+
+set_option maxRecDepth 100000 in
+/-- non-vacuity: a PostgreSQL 16 map with 64 mappings, 524 bytes long -/
+example : (RelMap.mk ((List.range 64).map fun i => (1000 + i, 2000 + i)) [] 0x15E3B201 []).WF16 ∧
+    (encRelMap (RelMap.mk ((List.range 64).map fun i => (1000 + i, 2000 + i)) [] 0x15E3B201 [])).length = 524 := by
+  decide +kernel
+
+/-- the defect fixes/control/09 removes (REVIEW B7), on the model of the code as written: on a PostgreSQL 16 file with two
+mappings and stored crc 0x15E3B201 it reported the mapoid of slot 62 (here 0) as the crc -/
+theorem witness_B7_crc :
+    (Model.Orig.parseRelMapFile (encRelMap (RelMap.mk [(1262, 1262), (1259, 16384)] (zeros (8 * 62)) 0x15E3B201 []))).map
+      (fun r => r.map (·.crc)) = .ok (some 0) := by decide +kernel
+
+/-- … and it rejected the counts 63 and 64, which are legal in PostgreSQL 16 -/
+theorem witness_B7_count :
+    Model.Orig.parseRelMapFile (encRelMap (RelMap.mk ((List.range 64).map fun i => (1000 + i, 2000 + i)) [] 7 [])) = .ok none := by
+  decide +kernel
+
 /-- Rejection, for every byte string: a file shorter than 512 bytes, a wrong magic, or a count that is negative or
-above 62 is rejected … -/
+above the layout's maximum (64 in a 524-byte file, 62 otherwise) is rejected … -/
 theorem C20_relmap_reject (bs : Bytes)
-    (h : bs.length < 512 ∨ rdAt 4 0 bs ≠ 0x592717 ∨ toSigned 32 (rdAt 4 4 bs) < 0 ∨ toSigned 32 (rdAt 4 4 bs) > 62) :
+    (h : bs.length < 512 ∨ rdAt 4 0 bs ≠ 0x592717 ∨ toSigned 32 (rdAt 4 4 bs) < 0 ∨
+      toSigned 32 (rdAt 4 4 bs) > maxCountFor bs.length) :
     Model.parseRelMapFile bs = .ok none :=
   parseRelMapFile_reject bs h
 
-/-- … and whatever is accepted has at least 512 bytes, the magic and a count in 0..62. -/
+/-- … and whatever is accepted has at least 512 bytes, the magic and a count in 0..62 (0..64 in a 524-byte file). -/
 theorem C20_relmap_accept (bs : Bytes) (rm : Model.RelMapFile) (h : Model.parseRelMapFile bs = .ok (some rm)) :
-    bs.length ≥ 512 ∧ rm.magic = 0x592717 ∧ rdAt 4 0 bs = 0x592717 ∧ 0 ≤ rm.numMappings ∧ rm.numMappings ≤ 62 ∧
-    rm.numMappings = toSigned 32 (rdAt 4 4 bs) :=
+    bs.length ≥ 512 ∧ rm.magic = 0x592717 ∧ rdAt 4 0 bs = 0x592717 ∧ 0 ≤ rm.numMappings ∧
+    rm.numMappings ≤ maxCountFor bs.length ∧ rm.numMappings = toSigned 32 (rdAt 4 4 bs) :=
   parseRelMapFile_accept bs rm h
+
+example : maxCountFor 512 = 62 ∧ maxCountFor 524 = 64 ∧ maxCountFor 8192 = 62 := by decide
 
 /-- Lookups.  GetFilenode / GetOID return the first stored match, or 0 when there is none. -/
 theorem C20_lookup (ms : List (Nat × Nat)) (k : Nat) :
